@@ -171,7 +171,7 @@ def possible_mutations(desc):
             m.append("array")
         return m
     if k == "multiplexed":
-        return ["rebind", "rebind-inner", "angle"]
+        return (["rebind"] if g["nc"] > 0 else []) + ["rebind-inner", "angle"]      # without controls there is no control qubit to rebind
     return []
 
 
